@@ -30,13 +30,39 @@ pub fn emit(s: &str) {
 
 pub fn reset() {
     BUF.with(|b| b.borrow_mut().clear());
+    START_TICKS.with(|t| t.set(cpu_ticks()));
+}
+
+thread_local! {
+    static START_TICKS: std::cell::Cell<u64> = std::cell::Cell::new(0);
+}
+
+/// Processor time (user + system, in clock ticks of 10 ms) used by the current thread, from
+/// /proc/thread-self/stat; 0 when that cannot be read. Used to report how long the expansion of one `lexer!`
+/// took, independently of how loaded the machine is.
+fn cpu_ticks() -> u64 {
+    let stat = match std::fs::read_to_string("/proc/thread-self/stat") {
+        Ok(s) => s,
+        Err(_) => return 0,
+    };
+    // the command name (field 2) is parenthesised and may contain spaces: count fields after the last ')'
+    let rest = match stat.rfind(')') {
+        Some(i) => &stat[i + 1..],
+        None => return 0,
+    };
+    let fields: Vec<&str> = rest.split_whitespace().collect();
+    // rest starts at field 3 (state); utime and stime are fields 14 and 15
+    let get = |k: usize| fields.get(k - 3).and_then(|x| x.parse::<u64>().ok()).unwrap_or(0);
+    get(14) + get(15)
 }
 
 pub fn flush(lexer_name: &str) {
     if let Some(dir) = std::env::var_os("LEXGEN_VERIF_DUMP") {
         let mut path = std::path::PathBuf::from(dir);
         path.push(format!("{}.dump", lexer_name));
-        let contents = BUF.with(|b| b.borrow().clone());
+        let ticks = cpu_ticks().saturating_sub(START_TICKS.with(|t| t.get()));
+        let mut contents = BUF.with(|b| b.borrow().clone());
+        contents.push_str(&format!("EXPANSION_CPU_MS {}\n", ticks * 10));
         let _ = std::fs::write(path, contents);
     }
     reset();
